@@ -29,3 +29,15 @@ Theorem C17_no_amplification :
     let '(_, evs, _) := decode_rows ig ak po rows st in (length evs <= length rows)%nat.
 Proof. exact no_amplification. Qed.
 Print Assumptions C17_no_amplification.
+
+(* For EVERY byte string -- hostile or not, delimited or not, any integration, strict or not -- the
+   parser model yields at most one event per input byte: rows cost bytes, a row yields at most one
+   event, frames only partition the input.  With the capped tables above, what the parser builds is
+   bounded by the size of what it was given. *)
+From PJ.Model Require Import Wire.
+From PJ.Proofs Require Import NoAmplification.
+Theorem C17_events_bounded_by_input_size :
+  forall (ig : integ) (grouped strict : bool) (b : list N),
+    (length (flat_events (parse_stream ig grouped strict b)) <= length b)%nat.
+Proof. exact events_bounded_by_bytes. Qed.
+Print Assumptions C17_events_bounded_by_input_size.
